@@ -351,8 +351,23 @@ def normalize_function(fn):
     return count
 
 
+def _unenumerate(tree):
+    """`for i, x in enumerate(E): ..` is analysed as `for x in E: i = __enum_index__; ..` (an opaque index): the rules speak about the loop over
+    E and its element variable."""
+    for n in ast.walk(tree):
+        if isinstance(n, ast.For) and isinstance(n.iter, ast.Call) and isinstance(n.iter.func, ast.Name) and n.iter.func.id == 'enumerate' \
+                and 1 <= len(n.iter.args) <= 2 and not n.iter.keywords and isinstance(n.target, ast.Tuple) and len(n.target.elts) == 2 \
+                and isinstance(n.target.elts[0], ast.Name):
+            idx = n.target.elts[0]
+            n.target = n.target.elts[1]
+            n.iter = n.iter.args[0]
+            n.body.insert(0, ast.copy_location(ast.Assign(targets=[ast.Name(id=idx.id, ctx=ast.Store())], value=ast.Name(id='__enum_index__', ctx=ast.Load()),
+                                                          lineno=n.lineno), n))
+
+
 def normalize_module(tree):
     total = 0
+    _unenumerate(tree)
     for fn in [n for n in ast.walk(tree) if isinstance(n, (ast.FunctionDef, ast.AsyncFunctionDef))]:
         # innermost functions first would be ideal; two rounds reach a fixpoint for chains of temporaries
         for _ in range(3):
